@@ -153,6 +153,11 @@ theorem NoSig.createSpeculative (g : Sig) (n : Nat) (c : CellId) :
     unfold Jqawk.createSpeculative
     repeat' (first | nosig_step2 | (with_reducible_and_instances exact ih _))
 
+theorem NoSig.memberStep (g : Sig) (pos : Nat) (l r : CellId) :
+    NoSig g (Jqawk.memberStep pos l r) := by
+  unfold Jqawk.memberStep
+  repeat' nosig_step2
+
 theorem NoSig.evalAssignment (g : Sig) (pos : Nat) (l r : CellId) :
     NoSig g (Jqawk.evalAssignment pos l r) := by
   unfold Jqawk.evalAssignment
@@ -299,6 +304,7 @@ macro "nosig_ind" ih:term : tactic => `(tactic| repeat' (first
   | nosig_ih $ih
   | (with_reducible_and_instances first
       | exact NoSig.evalAssignment _ _ _ _
+      | exact NoSig.memberStep _ _ _ _
       | exact NoSig.callNative _ _ _ _
       | exact NoSig.getIdentifier _ _ _
       | apply NoSig.withFrames)
